@@ -413,8 +413,9 @@ def case_variants(ctx, text, name='cv'):
     segs = []
     for k, ch in enumerate(text):
         if ch.isascii() and ch.isalpha():
-            segs.append((True, Atom(ctx.fresh_name(f'{name}{k}'), only={ch.lower(), ch.upper()},
-                                    exact1=True, note=f'{ch.lower()}|{ch.upper()}')))
+            a = Atom(ctx.fresh_name(f'{name}{k}'), only={ch.lower(), ch.upper()},
+                     exact1=True, note=f'{ch.lower()}|{ch.upper()}')
+            segs.append((True, a))
         else:
             segs.append((True, ch))
     return XStr(segs)
@@ -598,6 +599,17 @@ def str_contains(it, cont, x):
         if not any(all(piece_may_contain(p, ch) for ch in sx) or
                    any(piece_may_contain(p, ch) for ch in sx) for _, p in cont.segs):
             return False
+    if isinstance(sx, str) and all(isinstance(p, str) or p.exact1 or
+                                   (p.only is not None and len(p.only) <= 4)
+                                   for _, p in cont.segs):
+        # every unknown piece ranges over a few characters: the test is a (small) string constraint
+        for _, p in cont.segs:
+            if isinstance(p, Atom) and p.exact1:
+                it.ctx.assume_type(z3.Or([p.t == z3.StringVal(c) for c in sorted(p.only)]))
+            if isinstance(p, Atom) and not p.exact1:
+                it.ctx.assume_type(z3.InRe(p.t, z3.Star(z3.Union(*[z3.Re(c) for c in sorted(p.only)]))
+                                           if len(p.only) > 1 else z3.Star(z3.Re(next(iter(p.only))))))
+        return mk_bool(z3.Contains(cont.term(), z3.StringVal(sx)))
     if isinstance(sx, str) and len(cont.segs) == 1 and cont.segs[0][0] is True and \
             isinstance(cont.segs[0][1], Atom):
         # substring test on an opaque text: an unknown Boolean that is a function of the text
